@@ -134,14 +134,19 @@ func (s *Server) rejectPrivateAndLoopbackIPAction(_ context.Context, in egress.I
 		}
 	}
 
-	if !ip.IsPrivate() && !ip.IsLoopback() {
+	// Connecting to an unspecified address (0.0.0.0 or ::) reaches the local machine,
+	// so it is handled as a loopback destination. The destination address of a
+	// UDP associate request is the client's own address, which is typically unspecified.
+	isLoopback := ip.IsLoopback() || (ip.IsUnspecified() && req.Command == constant.Socks5ConnectCmd)
+
+	if !ip.IsPrivate() && !isLoopback {
 		return egress.Action{
 			Action: appctlpb.EgressAction_DIRECT,
 		}
 	}
 
 	// For testing propose, allow bypassing the user check below.
-	if ip.IsLoopback() && s.config.AllowLoopbackDestination {
+	if isLoopback && s.config.AllowLoopbackDestination {
 		return egress.Action{
 			Action: appctlpb.EgressAction_DIRECT,
 		}
@@ -168,7 +173,7 @@ func (s *Server) rejectPrivateAndLoopbackIPAction(_ context.Context, in egress.I
 		return egress.Action{
 			Action: appctlpb.EgressAction_DIRECT,
 		}
-	} else if ip.IsLoopback() && user.GetAllowLoopbackIP() {
+	} else if isLoopback && user.GetAllowLoopbackIP() {
 		return egress.Action{
 			Action: appctlpb.EgressAction_DIRECT,
 		}
